@@ -23,9 +23,17 @@ class ParallelEvaluator(Evaluator):
 
         from pathos.multiprocessing import ProcessingPool as Pool  # pyright: ignore
 
-        with Pool(len(indivs)) as pool:
-            fitnesses = pool.map(mapper, indivs)
-            for i, f in zip(indivs, fitnesses):
-                i.set_fitness(problem, f)
-                self.register_evaluation()
-                yield i
+        # Like the sequential evaluator: only individuals without a fitness for this problem are
+        # evaluated, each once (the same individual may be presented several times).
+        pending: list[Individual] = []
+        for ind in indivs:
+            if not ind.has_fitness(problem) and all(ind is not other for other in pending):
+                pending.append(ind)
+
+        if pending:
+            with Pool(len(pending)) as pool:
+                fitnesses = pool.map(mapper, pending)
+                for i, f in zip(pending, fitnesses):
+                    i.set_fitness(problem, f)
+                    self.register_evaluation()
+        yield from indivs
